@@ -19,6 +19,16 @@ ASSUMPTIONS = ['os.lstat / os.path.isdir on the generated tree are the ground tr
 CFG_KEYS = ['mark', 'nodir', 'globstar', 'dot', 'scandotdir', 'matchbase', 'brace', 'split', 'negate']
 
 
+class _FsPath:
+    """A path-like object that is nothing but path-like (its str() is not its path)."""
+
+    def __init__(self, p):
+        self._p = p
+
+    def __fspath__(self):
+        return self._p
+
+
 def shards(tier, seed, scale=1.0):
     n = 400 if tier == 'quick' else 6000
     out = [{'name': 'wf-%d' % s, 'kind': 'wf', 'seed': seed * 1000 + s, 'n': max(10, int(n * scale))} for s in range(16)]
@@ -124,6 +134,13 @@ def _check_case(root, spec, pps, absolute, cfg, out, armed, alias):
                 bfres = ['<%s>' % type(e).__name__]
             with util.chdir(root):
                 cres = G.glob(pats, flags=fl, **xk)
+            # path-like roots that are not pathlib paths: an object that only has __fspath__ (str and bytes), and an os.DirEntry
+            plres = G.glob(pats, flags=fl, root_dir=_FsPath(root), **xk)
+            bplres = [os.fsdecode(x) for x in G.glob(os.fsencode(pats) if isinstance(pats, str) else [os.fsencode(p) for p in pats], flags=fl,
+                                                    root_dir=_FsPath(os.fsencode(root)), **bxk)]
+            with os.scandir(os.path.dirname(root)) as it_:
+                entry_ = next(e_ for e_ in it_ if e_.name == os.path.basename(root))
+            deres = G.glob(pats, flags=fl, root_dir=entry_, **xk)
             # a descriptor of the parent directory plus a relative root_dir: the root is <fd>/<root_dir>
             pfd = os.open(os.path.dirname(root), os.O_RDONLY)
             try:
@@ -141,7 +158,8 @@ def _check_case(root, spec, pps, absolute, cfg, out, armed, alias):
         return res
     base = set(res)
     for label, other in [('bytes root', bres), ('PathLike root', pres), ('dir_fd', fres), ('bytes patterns with dir_fd', bfres), ('cwd', cres),
-                         ('dir_fd of the parent with a relative root_dir', pres2)] + sres:
+                         ('dir_fd of the parent with a relative root_dir', pres2), ('object with __fspath__ -> str', plres),
+                         ('object with __fspath__ -> bytes', bplres), ('os.DirEntry', deres)] + sres:
         out.evaluations += 1
         if set(other) != base:
             out.violation(dict(case, problem='result set depends on how the root is given: ' + label, root_dir=sorted(base)[:8],
